@@ -38,6 +38,10 @@ CHECKS = {
          "Every length 0..1300 (quick) / 0..12000 (thorough) with residues cycling through all printable bytes: the block equals an independently written layout, Len() before and after decoding equals n, decoding restores the residues, re-formatting is stable, the closed-form size arithmetic agrees with the block, and a record carrying the block is read with identical residues through the fast (LF) and slow (CRLF) reader paths. For every length <=70 (quick) / <=130 (thorough) every offset of the block x 9 replacement bytes: both line-end variants agree, and validateOrigin and slowGenBankOriginParser (exported into the checker by a build overlay, nothing committed to /repo) agree in verdict and output.",
          "If the unexported names disappear the overlay build falls back and the internal sub-check is reported as skipped in the evidence; seqio parsing is serialised (pars combinators are not goroutine-safe).",
          "DESIGN.md §5 C16"),
+ "C17": (MC, "exhaustive enumeration of residue counts, descriptions, stream shapes and line-end styles through the real FASTA writer and scanner; corpus conversion",
+         "Every residue count 0..300 (quick) / 0..1500 (thorough) over printable bytes, every description of <=3 symbols over {a,space,>,|,.}, every stream of 1..4 (quick) / 1..5 (thorough) records over the length menu {0,1,69,70,71,140}, each as LF and CRLF, written as seqio.Fasta and as BasicSequence: the written text has the exact 70-column layout and reads back as the same records in order. Every GenBank corpus record and a grid of its slices converted to FASTA keeps residues and yields the description Version[:a-b] Definition.",
+         "Descriptions without line breaks; residues printable without '>'; seqio parsing serialised.",
+         "DESIGN.md §5 C17"),
  "C18": (MC, "exhaustive enumeration of all byte values and all small sequences/queries through Complement/Transcribe/Match/Search against IUPAC base-set tables",
          "All 256 bytes through Complement and Transcribe; every printable query byte x every printable sequence byte through Match and Search (the complete match table incl. literals and regexp metacharacters); all sequences of length <=5 (quick) / <=7 (thorough) x all queries of length <=3 over an 8-letter alphabet: Search equals the set of all overlapping case-insensitive occurrences, Match equals the leftmost non-overlapping scan of the base-set containment predicate.",
          "IUPAC table written out in the checker; Match row K is test-pinned and listed as a known finding with an exact deviation.",
